@@ -288,10 +288,12 @@ def kde_multivariate(events_x, events_y, xout=None, yout=None, bw=None):
         bw = (bin_width_doane(events_x) / 2,
               bin_width_doane(events_y) / 2)
 
-    positions = np.vstack([xout.flatten(), yout.flatten()])
-    estimator_ly = KDEMultivariate(data=[events_x.flatten(),
-                                         events_y.flatten()],
-                                   var_type='cc', bw=bw)
+    # One row per point: an array of shape (2, 2) would be ambiguous
+    # for the estimator (two points or two variables?).
+    positions = np.column_stack([xout.flatten(), yout.flatten()])
+    estimator_ly = KDEMultivariate(
+        data=np.column_stack([events_x.flatten(), events_y.flatten()]),
+        var_type='cc', bw=bw)
 
     density = estimator_ly.pdf(positions)
     return density.reshape(xout.shape)
